@@ -13,9 +13,10 @@ Theorem C17_cmc_reward_goal_step : forall s0 s1 a n0 n1, - 1 <= a <= 1 ->
   CMC.reward s0 s1 a n0 n1 = GymContinuousMountainCar.reward_with (CMC.terminal n0 n1) a.
 Proof.
   intros s0 s1 a n0 n1 Ha.
-  unfold CMC.reward, GymContinuousMountainCar.reward_with, CMC.c_min_action, CMC.c_max_action.
-  assert (Hc : Rclip a (- 1) 1 = a) by (unfold Rclip, Rmin, Rmax; rdec; lra).
-  rewrite Hc. unfold b2R. destruct (CMC.terminal n0 n1); field.
+  (* by cases on the termination flag and on every comparison of the action clip: independent of how the source spells the
+     clip (jnp.clip / minimum(maximum(..))), the bonus (astype(float) / where) and the square *)
+  unfold CMC.reward, GymContinuousMountainCar.reward_with, CMC.c_min_action, CMC.c_max_action. cbv zeta.
+  destruct (CMC.terminal n0 n1); unfold b2R, Rclip, Rmin, Rmax; rdec; cbn [pow]; try lra; try nra; exfalso; lra.
 Qed.
 Print Assumptions C17_cmc_reward_goal_step.
 
